@@ -100,6 +100,40 @@ int main(void)
 		}
 		size_t ip = 0, op = 0; unsigned calls = 0; int stall = 0, finishing = 0, idle = 0;
 		alarm(kind == 1 ? 25 : 120);
+		int e1 = -1, e2 = -1;
+		if (mode == 5) {
+			// stall history: offer the first <seed> bytes, then call twice with nothing new (the first such call must
+			// return LZMA_OK, the second LZMA_BUF_ERROR, neither is fatal), then continue normally with the rest
+			size_t stop = seed < n ? (size_t)seed : n; unsigned g = 0; int stalled = 0;
+			while (stop > 0 && g++ < 100000) {
+				size_t il = stop - ip; uint8_t *ib = malloc(il ? il : 1); memcpy(ib, in + ip, il);
+				s.next_in = ib; s.avail_in = il; s.next_out = out + op; s.avail_out = OUTCAP - op;
+				r = lzma_code(&s, LZMA_RUN);
+				size_t di = il - s.avail_in, dd = (OUTCAP - op) - s.avail_out; ip += di; op += dd; calls++; free(ib);
+				if (r == LZMA_NO_CHECK || r == LZMA_UNSUPPORTED_CHECK || r == LZMA_GET_CHECK) continue;
+				if (r == LZMA_OK && di == 0 && dd == 0) stalled = 1;
+				if (r != LZMA_OK || (di == 0 && dd == 0) || ip == stop) break;
+			}
+			if (stop == 0) r = LZMA_OK;
+			if (r == LZMA_OK && ip == stop && !stalled) {
+				// everything offered was taken; drain what can still be produced without input
+				for (g = 0; g < 100000; g++) {
+					s.next_in = in; s.avail_in = 0; s.next_out = out + op; s.avail_out = OUTCAP - op;
+					r = lzma_code(&s, LZMA_RUN); size_t dd = (OUTCAP - op) - s.avail_out; op += dd; calls++;
+					if (r == LZMA_NO_CHECK || r == LZMA_UNSUPPORTED_CHECK || r == LZMA_GET_CHECK) { r = LZMA_OK; continue; }
+					if (r != LZMA_OK || dd == 0) break;
+				}
+				// that last call made no progress: it was the first stalled call
+				if (r == LZMA_OK) {
+					e1 = 0;
+					s.next_in = in; s.avail_in = 0; s.next_out = out + op; s.avail_out = OUTCAP - op;
+					e2 = (int)lzma_code(&s, LZMA_RUN); op += (OUTCAP - op) - s.avail_out; calls++;
+					r = LZMA_OK;
+				} else if (r == LZMA_BUF_ERROR) { e1 = 10; r = LZMA_OK; }
+			}
+			mode = 0;
+			if (r != LZMA_OK) goto report;
+		}
 		while (1) {
 			size_t il, ol;
 			switch (mode) {
@@ -135,12 +169,14 @@ int main(void)
 			if (di == 0 && dd == 0 && (il == n - ip) && finishing) { if (++idle > (kind == 1 ? 150 : 3000)) { r = 98; break; } } else idle = 0;
 			if (calls > 80000000) { r = 99; break; }
 		}
+	report:
 		if (kind == 7 && r == LZMA_STREAM_END && idx7) {
 			// the decoded Index, re-encoded, stands for the result
 			op = 0; if (lzma_index_buffer_encode(idx7, out, &op, OUTCAP) != LZMA_OK) op = 0;
 		}
 		printf("%d %llu %llu %u ", (int)r, (unsigned long long)s.total_in, (unsigned long long)s.total_out, calls);
 		if (!op) printf("-"); for (size_t i = 0; i < op; i++) printf("%02x", out[i]);
+		if (e1 >= 0) printf(" S%d,%d", e1, e2);
 		printf("\n"); fflush(stdout);
 		lzma_end(&s);
 		if (kind == 10 || (kind == 7 && r == LZMA_STREAM_END)) lzma_index_end(idx7, NULL);
